@@ -54,3 +54,39 @@ package atree
 //@   modifies alloc
 //@   loop 1: invariant 0 <= i && len(childStorables) >= len(old(childStorables)) && (forall k :: 0 <= k && k < len(old(childStorables)) ==> childStorables[k] == old(childStorables)[k])
 //@   loop 2: invariant 0 <= i && len(childStorables) >= len(old(childStorables)) && (forall k :: 0 <= k && k < len(old(childStorables)) ==> childStorables[k] == old(childStorables)[k])
+
+//@ # ---------------------------------------------------------------- storage_health_check.go: CheckStorageHealth (C20)
+//@ # Exit-state assertions over the checker's own tables (parentOf: reference -> referencing slab; slabs: everything iterated;
+//@ # visited; rootsMap). They say what a successful return has established; the reference enumeration feeding parentOf is
+//@ # ChildStorables (above). Counting arguments (every slab visited, no slab referenced twice) are not expressed here.
+
+//@ functype SlabIterator() (id, slab)
+//@   ensures id != SlabIDUndefined ==> slab != nil
+//@   pure
+
+//@ iface SlabStorage.SlabIterator() (it, err)
+//@   ensures err == nil ==> it != nil
+//@   pure
+
+//@ pred ownerOf(id SlabID) = sid(sto[id]).address
+
+//@ func CheckStorageHealth(storage, expectedNumberOfRootSlabs) (r, err)  serves C20
+//@   requires storage != nil
+//@   exit err == nil ==> (forall x SlabID :: has(parentOf, x) ==> has(slabs, x))
+//@   exit err == nil ==> (forall x SlabID :: has(parentOf, x) ==> has(slabs, parentOf[x]))
+//@   exit err == nil ==> (forall x SlabID :: has(visited, x) && has(parentOf, x) ==> ownerOf(x) == ownerOf(parentOf[x]))
+//@   exit err == nil ==> (forall x SlabID :: has(rootsMap, x) ==> has(slabs, x) && !has(parentOf, x))
+//@   exit err == nil ==> r == rootsMap && (expectedNumberOfRootSlabs >= 0 ==> len(rootsMap) == expectedNumberOfRootSlabs)
+//@   ensures err != nil ==> len(r) == 0
+//@   modifies alloc
+//@   loop 1: invariant (forall x SlabID :: has(parentOf, x) ==> has(slabs, parentOf[x])) && (forall k :: 0 <= k && k < len(leaves) ==> has(slabs, leaves[k])) && slabIterator != nil
+//@   loop 2: invariant (forall x SlabID :: has(parentOf, x) ==> has(slabs, parentOf[x])) && (forall k :: 0 <= k && k < len(leaves) ==> has(slabs, leaves[k])) && has(slabs, id) && slabIterator != nil
+//@   loop 3: invariant (forall x SlabID :: has(parentOf, x) ==> has(slabs, parentOf[x])) && (forall k :: 0 <= k && k < len(leaves) ==> has(slabs, leaves[k])) && has(slabs, id) && slabIterator != nil
+//@   loop 4: invariant (forall x SlabID :: has(parentOf, x) ==> has(slabs, parentOf[x])) && (forall k :: 0 <= k && k < len(leaves) ==> has(slabs, leaves[k])) &&
+//@        (forall x SlabID :: has(seen, x) ==> has(slabs, x))
+//@   loop 5: invariant (forall x SlabID :: has(parentOf, x) ==> has(slabs, x) && has(slabs, parentOf[x])) && (forall k :: 0 <= k && k < len(leaves) ==> has(slabs, leaves[k])) &&
+//@        (forall x SlabID :: has(visited, x) ==> has(slabs, x)) && (forall x SlabID :: has(visited, x) && has(parentOf, x) ==> ownerOf(x) == ownerOf(parentOf[x])) &&
+//@        (forall x SlabID :: has(rootsMap, x) ==> has(slabs, x) && !has(parentOf, x))
+//@   loop 6: invariant (forall x SlabID :: has(parentOf, x) ==> has(slabs, x) && has(slabs, parentOf[x])) && (forall k :: 0 <= k && k < len(leaves) ==> has(slabs, leaves[k])) &&
+//@        (forall x SlabID :: has(visited, x) ==> has(slabs, x)) && (forall x SlabID :: has(visited, x) && x != id && has(parentOf, x) ==> ownerOf(x) == ownerOf(parentOf[x])) &&
+//@        (forall x SlabID :: has(rootsMap, x) ==> has(slabs, x) && !has(parentOf, x)) && has(visited, id)
